@@ -350,11 +350,12 @@ class Engine:
 
     def feasible(s, pc, force=False):
         if getattr(s, 'is_final', False) and s.phase == 'threads' and not force: return True     # oracle code: let the solver prune
-        s.local_solver.push()
-        for c in pc: s.local_solver.add(c)
+        # incremental: the solver keeps the longest common prefix of the previous query's path condition asserted
+        s.assert_pc(pc)
         r = s.local_solver.check()
         if r != z3.unsat and s.phase == 'threads' and pc:
             used = False
+            s.local_solver.push()
             for vn in s.vars_of(pc[-1]):
                 e = s.read_of_var.get(vn)
                 if e is None: continue
@@ -363,7 +364,7 @@ class Engine:
             if used:
                 r = s.local_solver.check()
                 if r == z3.unsat: s.oblig.append(('prune', list(pc), None, None))   # justified later by the solver
-        s.local_solver.pop()
+            s.local_solver.pop()
         return r != z3.unsat
 
     def cfg_info(s, fn):
@@ -947,8 +948,21 @@ class Engine:
                 out = sorted(r)
                 if record: s.oblig.append(('enum', list(pc), term, list(out)))
                 return out
-        sol = z3.Solver()
-        for c in pc: sol.add(c)
+        sol = s.local_solver
+        s.assert_pc(pc); sol.push()
+        try: return s.enum_fallback(sol, term, pc, limit, record)
+        finally: sol.pop()
+
+    def assert_pc(s, pc):
+        st = s.__dict__.setdefault('_ls_stack', [])
+        k = 0; n = min(len(st), len(pc))
+        while k < n and st[k] is pc[k]: k += 1
+        while len(st) > k: s.local_solver.pop(); st.pop()
+        for c in pc[k:]:
+            s.local_solver.push(); s.local_solver.add(c); st.append(c)
+
+    def enum_fallback(s, sol, term, pc, limit, record):
+        used = False
         for vn in sorted(s.vars_of(term)):
             e = s.read_of_var.get(vn)
             if e is None: continue
